@@ -222,7 +222,7 @@ def discovery_tables():
             src = ast.unparse(node.test)
             if "max_lag" in src and any(isinstance(s, ast.Raise) and "ValueError" in ast.dump(s) for s in node.body):
                 guard = src
-        if isinstance(node, ast.Call) and ast.unparse(node.func) == "np.random.default_rng":
+        if isinstance(node, ast.Call) and ast.unparse(node.func).split(".")[-1] == "default_rng":      # (np.random.default_rng, default_rng, npr.default_rng, ...)
             a = node.args
             if a and isinstance(a[0], ast.Constant) and isinstance(a[0].value, int):
                 seed = a[0].value
